@@ -138,7 +138,47 @@ impl ZReorderMap {
         };
 
         map.rewind()?;
+        map.validate_entries()?;
         Ok(map)
+    }
+
+    /// Walks the run-length records once and checks that they describe exactly
+    /// `size` elements and end where the file ends.
+    ///
+    /// The header is written before the records, so a file cut short by an
+    /// interrupted build still announces the full element count; without this
+    /// check iteration would silently stop early.  Called by `open`; leaves the
+    /// iterator rewound.
+    fn validate_entries(&mut self) -> Result<()> {
+        let mut covered: usize = 0;
+        if self.size > 0 {
+            loop {
+                if self.seq_length == 0 {
+                    return Err(ZiporaError::invalid_data(
+                        "ZReorderMap: empty run in record stream"
+                    ));
+                }
+                covered = covered.checked_add(self.seq_length).ok_or_else(|| {
+                    ZiporaError::invalid_data("ZReorderMap: run lengths overflow")
+                })?;
+                if covered >= self.size {
+                    break;
+                }
+                self.read_entry()?;
+            }
+        }
+        if covered != self.size {
+            return Err(ZiporaError::invalid_data(format!(
+                "ZReorderMap: records describe {} elements, header says {}",
+                covered, self.size
+            )));
+        }
+        if self.pos != self.mmap.len() {
+            return Err(ZiporaError::invalid_data(
+                "ZReorderMap: trailing bytes after the last record"
+            ));
+        }
+        self.rewind()
     }
 
     /// Checks if the iterator has reached the end.
@@ -480,9 +520,12 @@ impl ZReorderMapBuilder {
             .truncate(true)
             .open(path)?;
 
-        // Write header: [size: u64][sign: i64]
-        file.write_all(&size.to_le_bytes())?;
-        file.write_all(&sign.to_le_bytes())?;
+        // Write header: [size: u64][sign: i64] in one write, so that an interrupted
+        // build can never leave a well-formed header that lacks one of its fields
+        let mut header = [0u8; 16];
+        header[..8].copy_from_slice(&(size as u64).to_le_bytes());
+        header[8..].copy_from_slice(&sign.to_le_bytes());
+        file.write_all(&header)?;
 
         Ok(Self {
             file,
